@@ -3,8 +3,9 @@
    Stated over the effect IR (Model/IR.v, semantics Model/IRSem.v) for every program that passes a decidable check
    (Analysis/Truthful.v: abstract interpretation, sound by Analysis/AbsInt.absint_sound), for all boxes, objectives,
    oracles (random draws / arithmetic results), iteration counts and admissible initial states; the hook is an observer
-   ([hk = fun x => x]) and arithmetic results are NaN-free and shape preserving ([okc = okc_std]).
-   The per-program obligations [c20_check prog_X = true], [c20_greedy_check prog_X = true] are evaluated on the
+   ([hk = fun x => x]) -- clause 1 is also proved for every hook that only moves agents
+   ([c20_truthful_any_position_moving_hook]) -- and arithmetic results are NaN-free and shape preserving ([okc = okc_std]).
+   The per-program obligations [c20_check prog_X = true], [c20h_check prog_X = true], [c20_greedy_check prog_X = true] are evaluated on the
    regenerated Gen/Programs.v by the driver at check time. *)
 From Coq Require Import String ZArith List Bool Arith Lia.
 From OV Require Import Base.FloatKey Model.Clip Model.IR Model.IRSem Analysis.AbsInt Analysis.SemLemmas Analysis.Feasible
@@ -25,6 +26,30 @@ Theorem c20_truthful : forall (lbs ubs : list Z) (f : contents -> Z) (n_iter : n
     run lbs ubs f hk n_iter okc p o x0 = Some (x', evs, o') ->
     forall y, In (EvDump y) evs -> truthful f (is_pso p) y.
 Proof. exact c20_truthful_of_check. Qed.
+
+(* Clause 1 for hooks that move agents.  The library documents the pre-evaluation hook as something that may modify the space
+   before the evaluation; [hook_moves_positions_only lbs h]: for every state x the hook keeps every agent's fitness
+   ([map afit (pop (h x)) = map afit (pop x)], hence the population size), the best agent, the trial agent, the shadows and the
+   local positions, and leaves the positions well formed (NaN-free, the declared number of rows) whenever they were.
+   For every such hook and every program passing [c20h_check] (the analysis in which [Hook] forgets, for every slot, the
+   relation between position and fitness -- a Havoc of every slot that keeps the fitnesses) every record is truthful; for the
+   swarm family w.r.t. the recorded local best, which such a hook does not touch.
+   [c20_truthful] above is the instance for the observer hook.  The monotonicity clause (clause 2) is stated for observer
+   hooks only: an agent moved by the hook is re-evaluated by the sweep and its fitness may well increase. *)
+Theorem c20_truthful_any_position_moving_hook : forall (lbs ubs : list Z) (f : contents -> Z) (n_iter : nat),
+  Forall2 (fun l h => kle l h = true) lbs ubs ->
+  forall (h : st -> st) (p : stmt), hook_moves_positions_only lbs h -> c20h_check p = true ->
+  forall o x0 x' evs o', init_ok lbs ubs f (is_pso p) x0 ->
+    run lbs ubs f h n_iter okc p o x0 = Some (x', evs, o') ->
+    forall y, In (EvDump y) evs -> truthful f (is_pso p) y.
+Proof. exact c20h_truthful_of_check. Qed.
+
+Theorem c20_position_moving_hook_means : forall lbs (h : st -> st),
+  hook_moves_positions_only lbs h <->
+  (forall x, map afit (pop (h x)) = map afit (pop x) /\ best (h x) = best x /\ tr (h x) = tr x /\ sh (h x) = sh x /\
+             loc (h x) = loc x /\
+             ((forall a, In a (pop x) -> wf lbs (apos a)) -> forall a, In a (pop (h x)) -> wf lbs (apos a))).
+Proof. intros. reflexivity. Qed.
 
 (* Clause 2, per agent (ABC, CS, FPA; PSO, AIWPSO, RPSO: the stored fitness is the personal best): between two
    consecutive records no agent's fitness increases:
@@ -111,6 +136,27 @@ Proof. split; [apply st0_init|vm_compute; reflexivity]. Qed.
 Example c20_nonvacuous_HS :
   init_ok [0%Z] [10%Z] fchk (is_pso prog_HS) st0 /\ ok_run (run [0%Z] [10%Z] fchk hk 1 okc prog_HS o_hs st0) 1 = true.
 Proof. split; [apply st0_init|vm_compute; reflexivity]. Qed.
+
+(* non-vacuity of the moving-hook theorem: [hook_move0] puts the first agent at key 5 -- it satisfies the hypothesis, it really
+   moves an agent of [st0], and runs under it succeed and write records *)
+Example c20_nonvacuous_moving_hook :
+  hook_moves_positions_only [0%Z] hook_move0 /\ map apos (pop (hook_move0 st0)) <> map apos (pop st0) /\
+  init_ok [0%Z] [10%Z] fchk (is_pso prog_ABC) st0 /\ c20h_check prog_ABC = true /\
+  ok_run (run [0%Z] [10%Z] fchk hook_move0 1 okc prog_ABC o_abc st0) 1 = true /\
+  ok_run (run [0%Z] [10%Z] fchk hook_move0 2 okc prog_PSO o_pso st0) 2 = true.
+Proof.
+  split; [exact hook_move0_ok|split; [vm_compute; discriminate|split; [apply st0_init|]]].
+  split; [vm_compute; reflexivity|split; vm_compute; reflexivity].
+Qed.
+
+(* the check separates: a hook between the sweep and the record is rejected, a hook in front of the sweep is accepted -- and
+   the rejected program really writes an untruthful record under [hook_move0] (while the observer-hook check accepts it) *)
+Example c20h_check_separates :
+  c20h_check (Seq base_sweep (Seq Hook Dump)) = false /\ c20h_check (Seq Hook (Seq base_sweep Dump)) = true /\
+  c20_check (Seq base_sweep (Seq Hook Dump)) = true /\
+  refutes_truthful (run [0%Z] [10%Z] fchk hook_move0 0 okc (Seq base_sweep (Seq Hook Dump)) [] st0) = true /\
+  refutes_truthful (run [0%Z] [10%Z] fchk hook_move0 0 okc (Seq Hook (Seq base_sweep Dump)) [] st0) = false.
+Proof. vm_compute. repeat split. Qed.
 
 (* non-vacuity of the history theorem: [st0] starts a history and two harmony-search tasks in a row form one *)
 Example c20_nonvacuous_two_tasks :
